@@ -71,7 +71,7 @@ def _child_main(fn, arg, wfd, timeout):
     try:
         if os.environ.get("VERIF_DEBUG"):
             faulthandler.enable()
-        faulthandler.dump_traceback_later(max(5, timeout - 2), exit=True)
+            faulthandler.dump_traceback_later(max(5, timeout - 2), exit=False)
         out = fn(arg)
         data = json.dumps(out, default=_json_default).encode()
     except BaseException as exc:  # noqa: BLE001
@@ -212,6 +212,23 @@ def run_job(job, timeout=60):
     verdict: the crash is an observable outcome of the system, judged by the property's
     check (most properties: no schedule was returned, nothing to judge)."""
     res = run_in_child(execute, job, timeout)
+    if res.get("status") == "harness_error" and str(res.get("error", "")).startswith("wall-clock kill"):
+        # z3 honours neither rlimit nor its timeout inside some non-linear procedures.  For a
+        # spec whose encoding is non-linear the hang is the engine's: the run is inconclusive
+        # (counted, excluded from digest comparisons).  For a linear spec it stays a harness error.
+        from oracles import get_check
+        from .gen import has_nonlinear
+        check = get_check(job["pid"])
+        plan = job.get("plan") or check.plan(job["run_seed"], job.get("tier", "quick"))
+        specs = [c["spec"] for c in plan["clients"] if isinstance(c.get("spec"), dict)]
+        if any(has_nonlinear(sp) for sp in specs):
+            from oracles.base import Verdict
+            v = Verdict()
+            v.probe("engine_hang_nonlinear(wall-clock kill)")
+            return {"status": "ok", "run_seed": plan["run_seed"], "digest": "hang", "verdict": v.to_json(), "faults": {"engine-hang": 1}, "fs_fired": 0,
+                    "steer_admitted": 0, "steer_refused": 0, "checks": 0, "sim_seconds": 0.0, "inconclusive": 1, "build_rejected": None,
+                    "uuid_collisions": 0, "stub_parallel": False, "real_timeout_guard": 1, "wall": float(timeout), "n_events": 0}
+        return res
     if res.get("status") != "crashed":
         return res
     from oracles import get_check
